@@ -662,3 +662,51 @@ def r_user_fmt(e, R):
         raise AnalysisError(f"R-USER-FMT: only {n_funcs} functions with user-object locals recognised (worker loop, feeder, feeder hook, manager expected)")
     if n_sinks == 0:
         R.ok("R-USER-FMT", f"no formatting of a user object in the {n_funcs} functions that hold one (worker loop, feeder, feeder hook, manager)", None)
+
+
+# ---------------------------------------------------------------------------
+# R-LIVE-EXC
+# ---------------------------------------------------------------------------
+def r_live_exc(e, R):
+    """An exception caught on one of loky's internal threads (the feeder thread, the manager thread) carries a traceback whose frames
+    reference that thread's locals: the call queue with its pipe and three named semaphores, the executor's tables.  Handing the *live*
+    exception object to the user -- as the exception of a future, or as __cause__ / __context__ of it -- lets whoever keeps the future pin
+    those resources after the executor was shut down and released (they are only closed by garbage collection).  loky's idiom is a string
+    copy (traceback.format_exception -> _RemoteTraceback).  Checked: in the feeder's error hook and in every manager function, no name
+    bound to a caught exception (an `except ... as name`, or the hook's exception parameter) is stored into __cause__ / __context__, passed
+    to set_exception, or used as the `from` of a raise."""
+    a = e.anchors
+    funcs = [e.prog.funcs[q] for q in sorted(a.feeder_onerror) if q in e.prog.funcs and q.startswith(PE + ":")] + \
+            [e.prog.funcs[q] for q in sorted(a.manager_funcs) if q in e.prog.funcs]
+    n_sinks = 0
+    seen = set()
+    for f in funcs:
+        if f.qualname in seen:
+            continue
+        seen.add(f.qualname)
+        live = {h.name for n in func_nodes(f) if isinstance(n, ast.Try) for h in n.handlers if h.name}
+        if f.qualname in a.feeder_onerror and len(f.params) >= 2:
+            live.add(f.params[1])
+        # copies: x = e
+        for n in func_nodes(f):
+            if isinstance(n, ast.Assign) and isinstance(n.value, ast.Name) and n.value.id in live:
+                live |= {t_.id for t_ in n.targets if isinstance(t_, ast.Name)}
+        for n in func_nodes(f):
+            sink = None
+            if isinstance(n, ast.Assign) and any(isinstance(t_, ast.Attribute) and t_.attr in ("__cause__", "__context__") for t_ in n.targets):
+                sink = n.value
+            elif isinstance(n, ast.Call) and isinstance(n.func, ast.Attribute) and n.func.attr == "set_exception" and n.args:
+                sink = n.args[0]
+            elif isinstance(n, ast.Raise) and n.cause is not None:
+                sink = n.cause
+            if sink is None:
+                continue
+            n_sinks += 1
+            bad = isinstance(sink, ast.Name) and sink.id in live
+            R.check(not bad, "R-LIVE-EXC", f"{f.short}: no live exception of an internal thread is handed to a future", f.short, norm(n)[:70],
+                    f"`{norm(n)[:60]}` attaches the exception object caught on loky's own thread: its traceback frames reference the call queue (pipe, three named "
+                    "semaphores) and the executor's tables, so a caller that keeps the failed future keeps them open after the executor was shut down and released",
+                    e.loc(f, n))
+    if n_sinks < 3:
+        raise AnalysisError(f"live-exception rule: only {n_sinks} cause / set_exception sites found on the feeder hook and the manager (expected >= 3)")
+    R.floor("R-LIVE-EXC", 3)
